@@ -15106,7 +15106,9 @@ gcry_error_t CallasDonnerhackeFinneyShawThayerRFC4880::SymmetricDecryptAEAD
 			return gcry_error(GPG_ERR_TOO_SHORT); // error: input too short
 		}
 		size_t len = in.size() - taglen;
-		unsigned char inbuf[len], outbuf[len], tag[taglen];
+		tmcg_openpgp_octets_t inbuf_heap(len + 1), outbuf_heap(len + 1);
+		unsigned char *inbuf = &inbuf_heap[0], *outbuf = &outbuf_heap[0];
+		unsigned char tag[taglen];
 		if (verbose > 2)
 			std::cerr << "INFO: SymmetricDecryptAEAD in = " << std::hex;
 		for (size_t i = 0; i < len; i++)
@@ -15246,7 +15248,9 @@ gcry_error_t CallasDonnerhackeFinneyShawThayerRFC4880::SymmetricDecryptAEAD
 				gcry_cipher_close(hd);
 				return gcry_error(GPG_ERR_TOO_SHORT); // error: input too short
 			}
-			unsigned char inbuf[chunkdim], outbuf[chunkdim], tag[taglen];
+			tmcg_openpgp_octets_t inbuf_heap(chunkdim + 1), outbuf_heap(chunkdim + 1);
+			unsigned char *inbuf = &inbuf_heap[0], *outbuf = &outbuf_heap[0];
+			unsigned char tag[taglen];
 			for (uint64_t i = 0; i < chunkdim; i++)
 				inbuf[i] = in[nbytes+i];
 			for (size_t i = 0; i < taglen; i++)
@@ -15340,7 +15344,9 @@ gcry_error_t CallasDonnerhackeFinneyShawThayerRFC4880::SymmetricDecryptAEAD
 			std::cerr << "INFO: SymmetricDecryptAEAD len = " << len <<
 				std::endl;
 		}
-		unsigned char inbuf[len], outbuf[len], tag[taglen];
+		tmcg_openpgp_octets_t inbuf_heap(len + 1), outbuf_heap(len + 1);
+		unsigned char *inbuf = &inbuf_heap[0], *outbuf = &outbuf_heap[0];
+		unsigned char tag[taglen];
 		if (verbose > 2)
 			std::cerr << "INFO: SymmetricDecryptAEAD in = " << std::hex;
 		for (size_t i = 0; i < len; i++)
